@@ -47,6 +47,7 @@ type Q struct {
 	extraSeen map[string]bool
 	modelVars []string // symbols whose values we want in counterexamples
 	nilChecked map[string]bool
+	needStrCmp bool
 }
 
 func newQ(p *Prog, fnName string, bv bool) *Q {
@@ -274,6 +275,9 @@ func (q *Q) script(upTo int, variant string) string {
 	for _, d := range q.so.structDecl {
 		b.WriteString(d)
 		b.WriteByte('\n')
+	}
+	if q.needStrCmp {
+		b.WriteString(strcmpAxioms)
 	}
 	for _, d := range q.extraDecl {
 		b.WriteString(d)
